@@ -34,6 +34,8 @@ BODIES = {
     "ok": "def f(x: int, xs: array[int, 2]) -> int:\n    n = len(xs)\n    y = int(x) + n\n    return y\n",
     "all3": "def f(x: int, xs: array[int, 2]) -> float:\n    a = float(x)\n    b = int(a)\n    c = len(xs)\n    return float(b + c) + a\n",
     "raises": "def f(x: int, xs: array[int, 2]) -> int:\n    y = int(x)\n    raise ValueError('boom')\n",
+    "interrupts": "def f(x: int, xs: array[int, 2]) -> int:\n    y = int(x) + len(xs)\n    raise KeyboardInterrupt()\n",
+    "exits": "def f(x: int, xs: array[int, 2]) -> int:\n    y = float(x)\n    raise SystemExit(3)\n",
     "illtyped": "def f(x: int, xs: array[int, 2]) -> int:\n    return float(x)\n",
     "leak": "def f(x: int, xs: array[int, 2]) -> int:\n    q = qubit()\n    return int(x)\n",
     "nested": "def f(x: int, xs: array[int, 2]) -> int:\n    return helper(int(x)) + len(xs)\n",
@@ -49,6 +51,11 @@ def plan(tier, seed):
 
 class InjectedFault(Exception):
     pass
+
+
+class InjectedInterrupt(BaseException):
+    """Interrupt-like (KeyboardInterrupt, SystemExit, pytest's outcome exceptions are BaseExceptions):
+    restore code written as `except Exception:` misses it."""
 
 
 class FailPoints:
@@ -83,7 +90,7 @@ class FailPoints:
             self.sites.append(site)
         elif self.count == self.armed_at:
             self.fired_site = site
-            raise InjectedFault(f"injected at {site}")
+            raise (InjectedInterrupt if self.count % 3 == 0 else InjectedFault)(f"injected at {site}")
         return None
 
     def start(self, user_file, armed_at=None):
@@ -141,7 +148,7 @@ def compile_once(ld, name="f"):
     try:
         getattr(ld.module, name).compile_function()
         return "ok"
-    except InjectedFault:
+    except (InjectedFault, InjectedInterrupt):
         return "injected"
     except BaseException as e:
         if C.raised_in_harness(e):
